@@ -9,7 +9,8 @@
    selection.  The index-level theorems hold for every index that describes the points. *)
 From Coq Require Import List ZArith NArith Bool.
 From TF Require Import Base Query Index DB Spec proofs.IndexDefs proofs.RepP proofs.DBReadP proofs.DBRemoveP
-     proofs.DBStepP proofs.DBRunP proofs.DBSpecP proofs.GetterP proofs.LawsP.
+     proofs.DBStepP proofs.DBRunP proofs.DBSpecP proofs.GetterP proofs.LawsP IndexSem proofs.IndexGenP proofs.IndexGetP.
+From TF Require gen.IndexGen.
 Import ListNotations.
 
 Theorem C07_len_exact : forall s, Inv s -> db_len s = (s, ONat (length (st_rows s))).
@@ -51,6 +52,31 @@ Theorem C07_getters_grow_with_inserts : forall m db new,
   spec_timestamps m (db ++ new) = spec_timestamps m db ++ spec_timestamps m new.
 Proof. exact getters_grow_with_inserts. Qed.
 
+(* the index's own getters that answer with lists or counts - __len__, valid, get_measurements, get_timestamps, get_field_values - COMPILED from
+   tinyflux/index.py on every run (gen/IndexGen.v, harness/py2coq_index.py; sets of positions read through `mem`, sorted(.., key=lambda x: x[1]) a
+   stable sort by position) are the model's getters on the abstraction of the object (get_measurements: a set, compared after sorting), hence
+   answer exactly what is stored whenever the object describes the stored points *)
+Theorem C07_source_index_len_is_the_model : forall g, IndexGen.gen___len__ g = ix_n (abs g).
+Proof. exact gen_len_eq. Qed.
+Theorem C07_source_index_valid_is_the_model : forall g, IndexGen.gen_valid g = ix_valid (abs g).
+Proof. exact gen_valid_eq. Qed.
+Theorem C07_source_index_measurements_is_the_model : forall g, sort_dedup (IndexGen.gen_get_measurements g) = ix_get_measurements (abs g).
+Proof. exact gen_get_measurements_eq. Qed.
+Theorem C07_source_index_timestamps_is_the_model : forall g m, IndexGen.gen_get_timestamps g m = ix_get_timestamps (abs g) m.
+Proof. exact gen_get_timestamps_eq. Qed.
+Theorem C07_source_index_field_values_is_the_model : forall g k m, NoDup (map fst (_fields g)) ->
+  IndexGen.gen_get_field_values g k m = ix_get_field_values (abs g) k m.
+Proof. exact gen_get_field_values_eq. Qed.
+Theorem C07_source_index_len_exact : forall g pts, Rep (abs g) pts -> IndexGen.gen___len__ g = length pts.
+Proof. exact source_len_exact. Qed.
+Theorem C07_source_index_measurements_exact : forall g pts, Rep (abs g) pts -> sort_dedup (IndexGen.gen_get_measurements g) = sort_dedup (map p_meas pts).
+Proof. exact source_measurements_exact. Qed.
+Theorem C07_source_index_timestamps_exact : forall g pts m, Rep (abs g) pts -> IndexGen.gen_get_timestamps g m = map p_time (in_meas m pts).
+Proof. exact source_timestamps_exact. Qed.
+Theorem C07_source_index_field_values_exact : forall g pts k m, gwf g -> Rep (abs g) pts -> wf_points pts ->
+  IndexGen.gen_get_field_values g k m = flat_map (fun p => match dget k (p_fields p) with Some v => [v] | None => [] end) (in_meas m pts).
+Proof. exact source_field_values_exact. Qed.
+
 Print Assumptions C07_drop_removes_measurement.
 Print Assumptions C07_getters_grow_with_inserts.
 Print Assumptions C07_len_exact.
@@ -64,3 +90,12 @@ Print Assumptions C07_all.
 Print Assumptions C07_handle_len.
 Print Assumptions C07_index_tag_values.
 Print Assumptions C07_index_timestamps.
+Print Assumptions C07_source_index_len_is_the_model.
+Print Assumptions C07_source_index_valid_is_the_model.
+Print Assumptions C07_source_index_measurements_is_the_model.
+Print Assumptions C07_source_index_timestamps_is_the_model.
+Print Assumptions C07_source_index_field_values_is_the_model.
+Print Assumptions C07_source_index_len_exact.
+Print Assumptions C07_source_index_measurements_exact.
+Print Assumptions C07_source_index_timestamps_exact.
+Print Assumptions C07_source_index_field_values_exact.
